@@ -174,6 +174,17 @@ theorem sqd_nonneg (a b : Pt) : 0 ≤ sqd a b := by
   unfold sqd
   nlinarith [sq_nonneg (a.x - b.x), sq_nonneg (a.y - b.y), sq_nonneg (a.z - b.z)]
 
+theorem sqd_eq_zero {a b : Pt} (h : sqd a b = 0) : a.x = b.x ∧ a.y = b.y ∧ a.z = b.z := by
+  unfold sqd at h
+  have hx := mul_self_nonneg (a.x - b.x)
+  have hy := mul_self_nonneg (a.y - b.y)
+  have hz := mul_self_nonneg (a.z - b.z)
+  have h1 : (a.x - b.x) * (a.x - b.x) = 0 := by linarith
+  have h2 : (a.y - b.y) * (a.y - b.y) = 0 := by linarith
+  have h3 : (a.z - b.z) * (a.z - b.z) = 0 := by linarith
+  exact ⟨by have := mul_self_eq_zero.mp h1; linarith, by have := mul_self_eq_zero.mp h2; linarith,
+    by have := mul_self_eq_zero.mp h3; linarith⟩
+
 theorem sqd_comm (a b : Pt) : sqd a b = sqd b a := by unfold sqd; ring
 
 /-- Triangle inequality for `sqd` with explicit non-negative bounds. -/
